@@ -59,6 +59,10 @@ def judge(ctx, sc, o, cond, code, tid, later, sender=False):
         eofs = [p for p in pdus if pdu_kind(p) == "EOF"]
         ctx.prop("cancel_reaches_peer", len(eofs) >= 1 and eofs[0].condition_code == cond,
                  lambda: {"sig": f"{name}/cancel: no EOF with that condition"})
+        if sc.mode != ACK:
+            # unacknowledged sender: the notice of completion follows at once, with the same condition
+            ctx.prop("cancel_reaches_user", len(ind) >= 1 and ind[0][2] == cond and ind[0][1] == tid,
+                     lambda: {"sig": f"{name}/cancel: sender indication {[(int(e[2])) for e in ind]}"})
         return
     ctx.prop("cancel_reaches_user", len(ind) >= 1 and ind[0][2] == cond and ind[0][1] == tid,
              lambda: {"sig": f"{name}/cancel: indication {[(int(e[2])) for e in ind]}"})
